@@ -137,4 +137,35 @@ theorem C18_seq_eq_par (assign : List Nat) (n : Nat) (hn : 0 < n) (w : Worker) (
   rw [List.mapM_map]
   rfl
 
+/-! ### Monte-Carlo wrappers -/
+
+/-- `mc.variable_elasticities(variables=None)`: every sample is evaluated at ITS OWN initial state — the
+    initial conditions of the model after the sample's values were written in — not at the base model's -/
+theorem C18_mc_default_state_is_per_sample (c : Content) (sample : Row) (toScan : Option (List Name)) (t : Rat)
+    (normalized : Bool) (d : Rat) (tbl : List (Name × Column))
+    (h : mcVarSample c sample toScan none t normalized d = .ok tbl) :
+    ∃ c1 vs, applyRow c sample = .ok c1 ∧ getInit c1 = .ok vs ∧
+      varElasticities c1 toScan (some vs) t normalized d = .ok tbl := by
+  unfold mcVarSample at h
+  obtain ⟨c1, h1, h⟩ := bind_ok h
+  have h' := h
+  unfold varElasticities at h
+  obtain ⟨vs, hvs, h⟩ := bind_ok h
+  refine ⟨c1, vs, h1, by simpa [resolveState] using hvs, ?_⟩
+  unfold varElasticities
+  simp only [resolveState, bind, Except.bind]
+  exact h
+
+/-- `mc.response_coefficients` leaves every sample's copy as it found it (the copy after the sample was
+    written in); what it does to the CALLER's model is `update_variables(variables)`, never undone (F-C18-2) -/
+theorem C18_mc_response_caller (w : Worker) (c c0 : Content) (sample : Row) (toScan : Option (List Name))
+    (vars : Option Row) (normalized : Bool) (d : Rat) (tbl : List (Name × Column))
+    (h : mcRespSample w c sample toScan vars normalized d = .ok (c0, tbl)) : applyY0 c vars = .ok c0 := by
+  unfold mcRespSample at h
+  obtain ⟨c0', h0, h⟩ := bind_ok h
+  obtain ⟨c1, _, h⟩ := bind_ok h
+  obtain ⟨r, _, h⟩ := bind_ok h
+  simp only [pure, Except.pure, Except.ok.injEq, Prod.mk.injEq] at h
+  rw [← h.1]; exact h0
+
 end Mxl.C18
